@@ -10,6 +10,7 @@ import (
 	"sigs.k8s.io/gateway-api/apis/v1alpha3"
 
 	ngfAPI "github.com/nginx/nginx-gateway-fabric/apis/v1alpha1"
+	ngfAPIv2 "github.com/nginx/nginx-gateway-fabric/apis/v1alpha2"
 	p "github.com/nginx/nginx-gateway-fabric/verifharness/pipeline"
 )
 
@@ -219,6 +220,44 @@ func Corpus() []CorpusCase {
 			}
 			mk(name, objs)
 		}
+	}
+	{
+		// NginxProxy telemetry WITHOUT exporter (only serviceName) + ObservabilityPolicies on an HTTPRoute and a GRPCRoute:
+		// nothing loads ngx_otel_module, so the policies must not produce otel_* includes (seeded change C03-r4m1)
+		objs := []client.Object{p.Namespace("ns", nil), p.Service("ns", "svc0", 80), p.EndpointSlice("ns", "svc0", "s", []int32{80}, "10.0.0.1")}
+		np := &ngfAPI.NginxProxy{ObjectMeta: p.Meta("", "np", 1)}
+		np.Spec.Telemetry = &ngfAPI.Telemetry{ServiceName: ptr("my-svc")}
+		gc := p.GatewayClass(p.DefaultClass, p.DefaultController, 1)
+		gc.Spec.ParametersRef = &gatewayv1.ParametersReference{Group: "gateway.nginx.org", Kind: "NginxProxy", Name: "np"}
+		objs = append(objs, np, gc, p.Gateway("ns", "gw", p.DefaultClass, 2, p.Listener{Name: "http", Port: 80, Protocol: "HTTP", FromNS: "All"}))
+		par := []gatewayv1.ParentReference{p.ParentRef("ns", "gw", "")}
+		objs = append(objs, p.HTTPRoute("ns", "hr", 3, par, nil, p.HTTPRule([]gatewayv1.HTTPRouteMatch{p.PathMatch("PathPrefix", "/")}, two(1)...)))
+		gr := gatewayv1.GRPCRouteRule{}
+		for _, b := range two(1) {
+			gr.BackendRefs = append(gr.BackendRefs, gatewayv1.GRPCBackendRef{BackendRef: p.BackendRef(b)})
+		}
+		objs = append(objs, p.GRPCRoute("ns", "gr", 4, par, []string{"grpc.example.com"}, gr))
+		for i, t := range [][2]string{{"HTTPRoute", "hr"}, {"GRPCRoute", "gr"}} {
+			op := &ngfAPIv2.ObservabilityPolicy{ObjectMeta: p.Meta("ns", "obs-"+t[1], 10+i)}
+			op.Spec.TargetRefs = []v1alpha2.LocalPolicyTargetReference{{Group: "gateway.networking.k8s.io", Kind: gatewayv1.Kind(t[0]), Name: gatewayv1.ObjectName(t[1])}}
+			op.Spec.Tracing = &ngfAPIv2.Tracing{Strategy: ngfAPIv2.TraceStrategyRatio, Ratio: ptr(int32([]int{25, 100}[i]))}
+			objs = append(objs, op)
+		}
+		mk("telemetry-without-exporter-observability-policy", objs)
+	}
+	{
+		// header modifier values with a backslash in front of `$`: NGINX keeps the backslash and still expands the variable,
+		// so the validator must reject them (seeded change C03-r4m2)
+		objs, par := base("ns")
+		rule := p.HTTPRule([]gatewayv1.HTTPRouteMatch{p.PathMatch("PathPrefix", "/")}, two(1)...)
+		rule.Filters = []gatewayv1.HTTPRouteFilter{
+			{Type: gatewayv1.HTTPRouteFilterRequestHeaderModifier, RequestHeaderModifier: &gatewayv1.HTTPHeaderFilter{
+				Set: []gatewayv1.HTTPHeader{{Name: "X-Set", Value: `a\$b`}}, Add: []gatewayv1.HTTPHeader{{Name: "X-Add", Value: `\$host`}}}},
+			{Type: gatewayv1.HTTPRouteFilterResponseHeaderModifier, ResponseHeaderModifier: &gatewayv1.HTTPHeaderFilter{
+				Set: []gatewayv1.HTTPHeader{{Name: "X-RSet", Value: `sp \$remote_addr x`}}, Add: []gatewayv1.HTTPHeader{{Name: "X-RAdd", Value: `end\$`}}}},
+		}
+		objs = append(objs, p.HTTPRoute("ns", "hr", 3, par, nil, rule))
+		mk("header-value-backslash-dollar", objs)
 	}
 	return out
 }
